@@ -236,4 +236,4 @@ def classify(o, case):
 
 def parts(tier):
     t = tier == 'thorough'
-    return [Part('tables', eval_case, strategy=strategy, examples=100000 if t else 8000)]
+    return [Part('tables', eval_case, strategy=strategy, examples=200000 if t else 8000)]
